@@ -312,13 +312,31 @@ def value_to_py(cinco, v, schema_for_cfgobj=None, root=None):
     """Abstract argument value -> Python object (cfgobj: a ready-made Config of the sub-schema)."""
     t = v["t"]
     if t == "cfgobj":
-        return schema_for_cfgobj()
+        factory = schema_for_cfgobj
+        if isinstance(factory, cinco.core.ConfigTypeField):
+            factory = factory.config_type
+        obj = factory()
+        apply_state(cinco, obj, v.get("c"), root)
+        return obj
     if t in ("list", "tuple"):
         items = [value_to_py(cinco, x, None, root) for x in seq(v["l"])]
         return items if t == "list" else tuple(items)
     if t == "dict":
         return {codec._hashable(value_to_py(cinco, k, None, root)): value_to_py(cinco, x, None, root) for k, x in seq(v["kv"])}
     return codec.to_py(v, root)
+
+
+def apply_state(cinco, obj, c, root=None):
+    """Bring a freshly built configuration into the (abstract) state c by plain assignments of
+    every value that is not marked default."""
+    if not isinstance(c, dict) or c.get("t") != "cfg" or not isinstance(c.get("vals"), dict):
+        return
+    dflt = set(seq(c.get("dflt", [])))
+    for key, val in c["vals"].items():
+        if isinstance(val, dict) and val.get("t") == "cfg":
+            apply_state(cinco, getattr(obj, key), val, root)
+        elif key not in dflt:
+            setattr(obj, key, value_to_py(cinco, val, None, root))
 
 
 def schema_field(cinco, schema, keys):
